@@ -40,3 +40,31 @@ package dns
 //@   loop 1 invariant unesc: i <= len(s) + 1 && (i == len(s) + 1 ==> s[len(s)-1] == '\\') && (i < len(s) ==> !escd(s, i))
 //@   loop 1 invariant esc: escape ==> i >= 1 && (i > len(s) || s[i-1] != '.' || escd(s, i-1))
 //@   loop 1 decreases len(s) - i
+
+// ---- escape units ------------------------------------------------------------------------------------
+// Reader side (RFC 1035 section 5.1): the unit starting at i is a plain octet, \DDD or \c.
+//@ spec unext(s seq, i int) int = s[i] != '\\' ? i + 1 : (ddd(s, i+1) ? i + 4 : i + 2)
+//@ spec uval(s seq, i int) int = s[i] != '\\' ? s[i] : (ddd(s, i+1) ? ((s[i+1] - '0') * 100 + (s[i+2] - '0') * 10 + (s[i+3] - '0')) % 256 : s[i+1])
+// Writer side: the unit the library prints for octet b inside a domain name.
+//@ spec special(b int) bool = b == '.' || b == ' ' || b == '\'' || b == '@' || b == ';' || b == '(' || b == ')' || b == '"' || b == '\\'
+//@ spec wlen(b int) int = special(b) ? 2 : ((b < 32 || b > 126) ? 4 : 1)
+//@ spec wch(b int, k int) int = special(b) ? (k == 0 ? '\\' : b) : ((b < 32 || b > 126) ? (k == 0 ? '\\' : (k == 1 ? '0' + b / 100 : (k == 2 ? '0' + (b / 10) % 10 : '0' + b % 10))) : b)
+
+// unit lemma: whatever octet b (0..255) is printed, in any position and whatever follows, the reader consumes
+// exactly that unit and recovers b; and a printed unit never starts with an unescaped '.' (no false separator).
+//@ lemma unit_roundtrip(s seq, i int, b int): (0 <= b && b < 256 && 0 <= i && i + wlen(b) <= len(s) && (forall k in 0..wlen(b) :: s[i+k] == wch(b, k))) ==> (unext(s, i) == i + wlen(b) && uval(s, i) == b && s[i] != '.') [C03 C05]
+
+//@ func isDomainNameLabelSpecial [C03 C05]
+//@   ensures ret0 == special(b)
+//@   pure
+
+//@ func escapeByte [C03 C05]
+//@   ensures unit: len(ret0) == 4 && (forall k in 0..4 :: ret0[k] == wch(b, k))
+//@   pure
+
+//@ func nextByte [C03 C05]
+//@   requires 0 <= offset
+//@   ensures eof:   offset >= len(s) ==> ret0 == 0 && ret1 == 0
+//@   ensures dangl: offset == len(s) - 1 && s[offset] == '\\' ==> ret1 == 0
+//@   ensures unit:  offset < len(s) && !(offset == len(s) - 1 && s[offset] == '\\') ==> ret1 == unext(s, offset) - offset && ret0 == uval(s, offset)
+//@   pure
